@@ -128,7 +128,7 @@ func collect(st subscription.Store, o subscription.IterationOptions) []string {
 // ---- alphabet
 
 type subOp struct {
-	kind   int // 0 subscribe, 1 unsubscribe, 2 unsubscribeAll, 3 unsubscribe of several filters in one call
+	kind   int // 0 subscribe, 1 unsubscribe, 2 unsubscribeAll, 3 unsubscribe of several filters in one call, 4 subscribe of several filters in one call
 	client string
 	full   string
 	opt    int
@@ -143,6 +143,8 @@ func (o subOp) String() string {
 		return fmt.Sprintf("Unsubscribe(%s,%s)", o.client, o.full)
 	case 3:
 		return fmt.Sprintf("Unsubscribe(%s,%s)", o.client, strings.Join(o.fulls, ","))
+	case 4:
+		return fmt.Sprintf("Subscribe(%s,[%s],opt%d)", o.client, strings.Join(o.fulls, ","), o.opt)
 	}
 	return fmt.Sprintf("UnsubscribeAll(%s)", o.client)
 }
@@ -171,6 +173,8 @@ func subAlphabet(clients, filters []string, opts []int) []subOp {
 				for j, g := range filters {
 					if i != j {
 						ops = append(ops, subOp{kind: 3, client: c, fulls: []string{f, g}})
+						// one Subscribe call carrying two subscriptions, in both orders
+						ops = append(ops, subOp{kind: 4, client: c, fulls: []string{f, g}, opt: opts[0]})
 					}
 				}
 			}
@@ -444,6 +448,39 @@ func applySubOp(c *explore.Ctx, st subscription.Store, ref *refTable, op subOp, 
 		if after.SubscriptionsTotal-before.SubscriptionsTotal != wantDelta {
 			c.Violate("total-delta", fmt.Sprintf("delta-%d-want-%d", after.SubscriptionsTotal-before.SubscriptionsTotal, wantDelta), map[string]any{"store": flavour, "history": hist()}, fmt.Sprint(wantDelta), fmt.Sprint(after.SubscriptionsTotal-before.SubscriptionsTotal))
 		}
+	case 4:
+		var subs []*gmqtt.Subscription
+		var existed []bool
+		for _, f := range op.fulls {
+			subs = append(subs, mkSub(f, op.opt))
+			_, ex := ref.m[ref.key(op.client, f)]
+			existed = append(existed, ex)
+		}
+		rs, err := st.Subscribe(op.client, subs...)
+		news := uint64(0)
+		for i, f := range op.fulls {
+			ref.m[ref.key(op.client, f)] = refSub{Client: op.client, Full: f, Sub: *mkSub(f, op.opt)}
+			if !existed[i] {
+				news++
+			}
+		}
+		if !check {
+			return
+		}
+		if err != nil || len(rs) != len(subs) {
+			c.Violate("subscribe-result", "error-multi", map[string]any{"store": flavour, "history": hist()}, fmt.Sprint(len(subs), " results, nil error"), fmt.Sprint(len(rs), err))
+			return
+		}
+		for i := range rs {
+			if rs[i].AlreadyExisted != existed[i] {
+				c.Violate("already-existed", "multi-subscribe-wrong-flag", map[string]any{"store": flavour, "history": hist()}, fmt.Sprint(existed), fmt.Sprint(rs[0].AlreadyExisted, rs[1].AlreadyExisted))
+				break
+			}
+		}
+		if after := st.GetStats(); after.SubscriptionsTotal-before.SubscriptionsTotal != news {
+			c.Violate("total-delta", "multi-subscribe-delta", map[string]any{"store": flavour, "history": hist()}, fmt.Sprint(news), fmt.Sprint(after.SubscriptionsTotal-before.SubscriptionsTotal))
+		}
+		return
 	case 1:
 		err := st.Unsubscribe(op.client, op.full)
 		delete(ref.m, ref.key(op.client, op.full))
@@ -511,7 +548,7 @@ func subBFS(c *explore.Ctx, clients, filters []string, opts []int, topics []stri
 
 func runC02(c *explore.Ctx) {
 	c.Level = "model_checking"
-	c.Rule = "E1: explicit-state BFS to closure over Subscribe/Unsubscribe (one filter, and two filters in one call in both orders)/UnsubscribeAll alphabets on the real mem subscription store (states = canonical dumps of the store's private state; every new state gets the full query battery vs an independent MQTT 4.7 matcher). One BFS per alphabet: all pairs (and, thorough, all triples) of filters from the universe x 2 clients. E5: TopicMatch on every (valid topic, valid filter) pair of bounded strings."
+	c.Rule = "E1: explicit-state BFS to closure over Subscribe and Unsubscribe (one filter, and two filters in one call in both orders) / UnsubscribeAll alphabets on the real mem subscription store (states = canonical dumps of the store's private state; every new state gets the full query battery vs an independent MQTT 4.7 matcher). One BFS per alphabet: all pairs (and, thorough, all triples) of filters from the universe x 2 clients. E5: TopicMatch on every (valid topic, valid filter) pair of bounded strings."
 	c.Trusted = []string{"refmqtt.Match / ValidTopicFilter / ValidTopicName (independent reference written from MQTT 4.7)", "statekey.Dump (reflection dump of private state)"}
 	c.Assumptions = []string{"shared subscriptions in lookups are decided by C11; C02 only requires that they do not disturb non-shared answers and counts"}
 	filters, topics := c02Universe(!c.Quick())
